@@ -624,6 +624,9 @@ func Render(p *Program, pkg, modPath string) string {
 	default:
 		shadow(&b)
 		b.WriteString("\tout.Err = " + call + "\n")
+		if p.F.AssignAfter && p.F.IdentArg != "" {
+			b.WriteString("\tprobe.Zero(&" + p.F.IdentArg + ")\n")
+		}
 	}
 	if p.Flow != nil {
 		var hs []string
